@@ -240,8 +240,13 @@ def dupDiag (refs : List Text) (r : Text) : List Diag :=
 def addRef (refs : List Text) (r : Text) : List Text :=
   if r ∈ refs then refs else r :: refs
 
-/-- `obj.ref and not obj.ref.startswith("_")` -/
+/-- `not obj.ref.startswith("_")`: only base entries keep their placeholders (an entry without ref - a step - is
+rendered like any other; the code before the repair also required a non-empty ref: `wantsSubstOld`) -/
 def wantsSubst : Text → Bool
+  | [] => true
+  | c :: _ => !(c == '_')
+
+def wantsSubstOld : Text → Bool
   | [] => false
   | c :: _ => !(c == '_')
 
